@@ -2,10 +2,17 @@
 
 Proof: lean/Reduino/Props/C16.lean over the firmware model Fw/Buzzer.lean (ordered field K).
 Tie S_c: the model (Float32) vs the emitted C++ compiled against the mock core, per call, bit-exact getters.
-Oracle: tone-protocol monitor on the firmware trace."""
+Oracle: tone-protocol monitor on the firmware trace.
+
+Two families of scripts: straight-line sequences (arguments literal or routed through a variable that is assigned once), and ITERATED
+sequences (own PRNG): the calls sit in the body of `for i in range(n)`, of `while k < n`, or of `while True` (n passes of loop()), their
+arguments are variables that the body RE-ASSIGNS after the calls (`v = v + step`, `v += step`, int and float, rising and falling), so
+the same call site sees another value on every iteration.  The model request and the monitor get the unrolled sequence with the values the
+Python program has at each iteration."""
 from __future__ import annotations
 
 import importlib
+import random
 
 import common
 import devscript as ds
@@ -18,6 +25,7 @@ TRUSTED = [
     "exact-arithmetic theorems; float32 rounding in sweep interpolation and melody durations only through the bit-exact tie",
     "Fw.melodies reference score (tied to emitter._BUZZER_MELODIES by the regenerated obligation gen_melodies)",
     "negative durations (C cast of a negative value to unsigned) are outside the model: reported `undefined`",
+    "iterated scripts: the loop is unrolled by the harness (Python meaning of v = v + step, values exact in float32) before model and monitor see it",
 ]
 
 IMPORTS = ["from Reduino.Actuators import Buzzer", "from Reduino.Communication import SerialMonitor"]
@@ -57,6 +65,14 @@ def gen_ops(rng):
 
 def build(ops, pin, dflt):
     sb = ds.ScriptBuilder(IMPORTS)
+    _, req = build_ops_into(sb, ops)
+    decl = f"bz = Buzzer({pin})" if dflt is None else f"bz = Buzzer({pin}, default_frequency={dflt!r})"
+    src = sb.source([decl, 'mon.write("#")'])
+    d = 440.0 if dflt is None else dflt
+    return src, f"fwbuzzer|i{pin} {ds.tok32(ds.f32r(float(d)))}|" + "|".join(req)
+
+
+def build_ops_into(sb, ops):
     req = []
     for op in ops:
         if op[0] == "pt":
@@ -90,10 +106,79 @@ def build(ops, pin, dflt):
         sb.line("mon.write(bz.get_frequency())")
         sb.line("mon.write(bz.get_last_frequency())")
         sb.marker()
+    return sb, req
+
+
+ISTEPS = [1, 10, 100, -1, -50, 220, 0]
+FSTEPS = [0.5, 0.25, -0.5, 1.5, 100.0, -110.25, 0.0]
+SMALL_ISTEPS = [1, 1, 2, -1, 0]
+
+
+def gen_iter(rng):
+    """(ops, form, n, steps): a short op list whose variable-routed arguments move by steps[id(arg)] per iteration"""
+    while True:
+        ops = gen_ops(rng)[:rng.randint(1, 3)]
+        form = rng.choice(["for", "for", "while", "loop", "loop"])
+        n = rng.randint(2, 4)
+        steps = {}
+        nvar = 0
+        for op in ops:
+            for pos, a in enumerate(op):
+                if not isinstance(a, Arg):
+                    continue
+                if rng.random() < 0.75:
+                    a.var = True
+                if a.var:
+                    small = op[0] in ("beep", "sweep") and pos == 4       # counts / steps: keep them small
+                    steps[id(a)] = (rng.choice(FSTEPS) if isinstance(a.v, float) else rng.choice(SMALL_ISTEPS if small else ISTEPS), rng.random() < 0.5)
+                    nvar += steps[id(a)][0] != 0
+        if nvar == 0:
+            continue
+        un = unroll(ops, n, steps)
+        if in_domain(un) and all(ds.f32r(a.v) == a.v for op in un for a in op if isinstance(a, Arg) and isinstance(a.v, float)):
+            return ops, form, n, steps
+
+
+def unroll(ops, n, steps):
+    out = []
+    for k in range(n):
+        for op in ops:
+            out.append(tuple(Arg(a.v + k * steps[id(a)][0], True) if (isinstance(a, Arg) and id(a) in steps) else a for a in op))
+    return out
+
+
+def build_iter(ops, form, n, steps, pin, dflt):
+    """the script with the loop, and the model request of the unrolled sequence"""
+    sb = ds.ScriptBuilder(IMPORTS)
+    names = {}
+    orig_a = sb.a
+
+    def a(arg):
+        r = orig_a(arg)
+        if arg.var:
+            names[id(arg)] = r
+        return r
+    sb.a = a
+    src0, _ = build_ops_into(sb, ops)
+    updates = []
+    for op in ops:
+        for x in op:
+            if isinstance(x, Arg) and id(x) in steps and steps[id(x)][0] != 0:
+                st, aug = steps[id(x)]
+                nm = names[id(x)]
+                updates.append(f"{nm} += {st!r}" if aug else f"{nm} = {nm} + {st!r}")
+    body = sb.body + updates
     decl = f"bz = Buzzer({pin})" if dflt is None else f"bz = Buzzer({pin}, default_frequency={dflt!r})"
-    src = sb.source([decl, 'mon.write("#")'])
+    head = sb.head + ["mon = SerialMonitor(9600)"] + sb.vars + [decl, 'mon.write("#")']
+    if form == "for":
+        lines = head + [f"for i in range({n}):"] + ["    " + l for l in body]
+    elif form == "while":
+        lines = head + ["k = 0", f"while k < {n}:"] + ["    " + l for l in body] + ["    k = k + 1"]
+    else:
+        lines = head + ["while True:"] + ["    " + l for l in body]
+    _, reqs = build_ops_into(ds.ScriptBuilder(IMPORTS), unroll(ops, n, steps))
     d = 440.0 if dflt is None else dflt
-    return src, f"fwbuzzer|i{pin} {ds.tok32(ds.f32r(float(d)))}|" + "|".join(req)
+    return "\n".join(lines) + "\n", f"fwbuzzer|i{pin} {ds.tok32(ds.f32r(float(d)))}|" + "|".join(reqs)
 
 
 def canon_segment(seg):
@@ -132,6 +217,9 @@ def monitor(ctx, ops, segs, src):
                      f"{op[0]} returned with the pin sounding={sounding} get_state()={state}", replay)
         if op[0] == "pt" and float(op[1].v) <= 0 and tones:
             ctx.fail("buzzer:tone-for-nonpositive", "play_tone with frequency <= 0 started a tone", replay)
+        # the tone on the pin is the requested one (the getters' claim `last sounded` is about the pin): whole Hz, rounding either way allowed
+        if op[0] == "pt" and float(op[1].v) >= 1 and (len(tones) != 1 or abs(tones[0] - float(op[1].v)) > 1):
+            ctx.fail("buzzer:play_tone-frequency", f"play_tone({op[1].v}) put {tones} Hz on the pin", replay)
         # get_state()/get_frequency() report the tone CURRENTLY sounded: after play_tone / stop they agree with the pin
         if op[0] in ("pt", "stop") and len(pr) == 3 and state != sounding:
             ctx.fail("buzzer:state-disagrees-with-pin", f"{op[0]} returned with the pin sounding={sounding} while get_state()={state}", replay)
@@ -231,7 +319,24 @@ def run(ctx: Ctx) -> int:
             ops = gen_ops(rng)
         cases.append((ops, rng.choice([8, 3, 11]), rng.choice([None, None, 880.0, 262])))
     built = [build(*c) for c in cases]
-    results = ds.transpile_and_run(ctx, [b[0] for b in built])
+    passes = [0] * len(cases)
+    # iterated family (own PRNG: the straight-line stream above stays what it was)
+    rng_i = random.Random(f"{ctx.seed}:C16:iterated")
+    pinned = [([("pt", Arg(200, True), Arg(10, True))], "for", 3, [100, 5]), ([("pt", Arg(200, True), Arg(10, True))], "loop", 3, [100, 5]),
+              ([("sweep", Arg(200), Arg(400, True), Arg(40), Arg(2)), ("beep", Arg(400, True), Arg(5), Arg(5), Arg(1))], "loop", 3, [200, 200]),
+              ([("pt", Arg(440.5, True), None)], "while", 3, [-110.25]), ([("mel", "success", Arg(120, True))], "for", 2, [120])]
+    iters = []
+    for ops, form, n, sts in pinned:
+        vs = [a for op in ops for a in op if isinstance(a, Arg) and a.var]
+        iters.append((ops, form, n, {id(a): (st, i % 2 == 1) for i, (a, st) in enumerate(zip(vs, sts))}))
+    iters += [gen_iter(rng_i) for _ in range(ctx.n(50, 500))]
+    for ops, form, n, steps in iters:
+        pin, dflt = rng_i.choice([8, 3, 11]), rng_i.choice([None, None, 880.0, 262])
+        built.append(build_iter(ops, form, n, steps, pin, dflt))
+        cases.append((unroll(ops, n, steps), pin, dflt))
+        passes.append(n if form == "loop" else 0)
+        ctx.count("iterated:" + form)
+    results = ds.transpile_and_run_passes(ctx, [(b[0], p) for b, p in zip(built, passes)])
     model = ctx.lean.drive([b[1] for b in built])
     for (ops, pin, dflt), (src, req), (cpp, exc, res), m in zip(cases, built, results, model):
         ctx.count("sequences")
@@ -247,11 +352,13 @@ def run(ctx: Ctx) -> int:
         segs = ds.split_ops(res.trace)[1:]
         impl = "|".join(canon_segment(s) for s in segs)
         ctx.cov["traces_validated_against_impl"] += 1
-        ctx.case(req, nontrivial=True, sample={"script": src, "model": m[:300]} if len(ctx.cov["samples"]) < 2 else None)
+        ctx.case(req + ("|iter" if "\n    bz." in src else ""), nontrivial=True, sample={"script": src, "model": m[:300]} if len(ctx.cov["samples"]) < 2 else None)
         if m != impl:
             ctx.tie_diff("tie S_c buzzer (Fw.Buzzer vs compiled emitted C++)", {"script": src, "request": req}, m, impl)
         monitor(ctx, ops, segs, src)
     ctx.cov["rule"] = ("sequences of 1-8 buzzer calls (play_tone with/without duration, stop, beep, sweep, melody x 7 tunes) with literal and "
-                       "run-time (variable-routed) int/float arguments incl. zero and negative frequencies/counts/steps/tempos; every sequence is "
+                       "run-time (variable-routed) int/float arguments incl. zero and negative frequencies/counts/steps/tempos; iterated sequences: 1-3 "
+                       "calls in the body of for-range / while-condition / while True (2-4 iterations or passes) whose variable arguments are "
+                       "re-assigned in the body (v = v + step / v += step, int and float steps of either sign); every sequence is "
                        "transpiled, compiled with g++ against the mock core and run; distinct = distinct model request lines")
     return ctx.finish(TRUSTED, search=None)
